@@ -194,9 +194,19 @@ func (s *initialCryptoStream) Write(p []byte) (int, error) {
 			s.scramble = false
 			return len(p), nil
 		}
+		if sniPos == -1 || sniLen == 0 {
+			// No SNI (or an empty host name): there's no SNI cut.
+			// Without an ECH extension, there's nothing to scramble.
+			if echPos <= 0 {
+				s.scramble = false
+				return len(p), nil
+			}
+		}
 		s.end = protocol.ByteCount(len(s.writeBuf))
-		s.cuts[0].start = protocol.ByteCount(sniPos + sniLen/2) // right in the middle
-		s.cuts[0].end = protocol.ByteCount(sniPos + sniLen)
+		if sniPos != -1 && sniLen > 0 {
+			s.cuts[0].start = protocol.ByteCount(sniPos + sniLen/2) // right in the middle
+			s.cuts[0].end = protocol.ByteCount(sniPos + sniLen)
+		}
 		if echPos > 0 {
 			// ECH extension found, cut the ECH extension type value (a uint16) in half
 			start := protocol.ByteCount(echPos + 1)
@@ -205,8 +215,12 @@ func (s *initialCryptoStream) Write(p []byte) (int, error) {
 			s.cuts[1].end = min(start+16, s.end)
 		}
 		slices.SortFunc(s.cuts[:], func(a, b clientHelloCut) int {
+			// unused cuts go last
 			if a.start == protocol.InvalidByteCount {
 				return 1
+			}
+			if b.start == protocol.InvalidByteCount {
+				return -1
 			}
 			if a.start > b.start {
 				return 1
